@@ -40,3 +40,10 @@ package pluginconfig
 //@ props C17 C13
 //@ loop 0 invariant out != nil
 //@ ensures [non-map-is-an-error] imp(!typeis(data, map[string]interface{}) && !typeis(data, map[interface{}]interface{}), err != nil)
+
+// Both plugin hooks are installed (components and component factories).
+//@ func AddHooks
+//@ props C17 C18
+//@ ensures [component-and-factory-hooks] calls(config.AddTypeHook) == 2
+//@ at call config.AddTypeHook#0 assert arg(hook) == Hook
+//@ at call config.AddTypeHook#1 assert arg(hook) == FactoryHook
